@@ -43,6 +43,7 @@ EXPLANATION = ('bounded exhaustive exploration of the implementation: every conf
 # ---------------------------------------------------------------------------- alphabet
 FORM = {
     'N': {'N': 1}, 'N2': {'N': 2}, 'N3': {'N': 3},
+    'oH2': {'H': 2}, 'pH2': {'H': 2},                 # ortho / para hydrogen: isomers over one element
     'H2': {'H': 2}, 'O2': {'O': 2}, 'H2O': {'H': 2, 'O': 1}, 'OH': {'O': 1, 'H': 1}, 'H': {'H': 1},
     'O': {'O': 1}, 'HO2': {'H': 1, 'O': 2}, 'H2O2': {'H': 2, 'O': 2},
     'NO2': {'N': 1, 'O': 2}, 'N2O4': {'N': 2, 'O': 4}, 'NO': {'N': 1, 'O': 1},
@@ -58,6 +59,8 @@ NETS_Q = {
                 {'unit:N2': {'N2': 1.0}, 'unit:N': {'N': 1.0}, 'mixed': {'N': 0.3, 'N2': 2.0}}),
     'N-trimer': (['N', 'N2', 'N3'],
                  {'unit:N2': {'N2': 1.0}, 'unit:N3': {'N3': 1.0}, 'mixed': {'N': 1.0, 'N2': 1.0, 'N3': 1.0}}),
+    'H2-spin': (['oH2', 'pH2'],
+                {'unit:pH2': {'pH2': 1.0}, 'mixed': {'oH2': 0.75, 'pH2': 0.25}}),
     'HO3': (['H2', 'O2', 'H2O'],
             {'stoich': {'H2': 2.0, 'O2': 1.0}, 'unit:H2O': {'H2O': 1.0}, 'lean': {'H2': 1.0, 'O2': 2.0},
              'rich': {'H2': 3.0, 'O2': 0.5}}),
@@ -109,6 +112,10 @@ PRESS = [0.01, 1.0, 100.0]
 DEF_T, DEF_P = 1000.0, 1.0
 
 TRACE = 1e-4                      # mole fraction below which a species is "trace"
+TOL_G = 1e-6                      # G(x_impl) - G_min <= TOL_G * (N + |G_min|)   (N = total moles: scale-aware)
+TOL_AFF = 1e-2                    # |dG/RT + ln Q| of a reaction among non-trace species
+TOL_AMOUNT = 1e-2                 # relative, non-trace amounts (same quantity as TOL_AFF: d ln n)
+TOL_ATOMS = 1e-8                  # relative to the element total of the feed
 LOWER_BOUND_TAG = 1e-19           # an amount this small sits on pMuTT's lower bound (1e-20)
 
 PLANNED_TAGS = ['scipy:success', 'scipy:failure', 'failure:signalled', 'rank:deficient', 'rank:full',
@@ -361,7 +368,7 @@ def _sig(case, prob, run):
     else:
         s = 'failure-status-%d' % flag['status']
     rank = int(np.linalg.matrix_rank(prob['A']))
-    return dict(scipy=s, elements=len(prob['elements']),
+    return dict(scipy=s, elements=len(prob['elements']), feed_scale='%g' % float(case['scale']),
                 rank='full' if rank == len(prob['elements']) else 'deficient',
                 order='listed' if list(case['order']) == list(range(len(prob['names']))) else 'permuted',
                 history='fresh' if case.get('prior') is None else 'reused',
@@ -389,6 +396,9 @@ def _judge(case, ctx, prob, ref, run, sig):
     ctx.tag('elements:%d' % len(prob['elements']))
     ctx.tag('rank:' + sig['rank'])
     if run['unrelated']:
+        ctx.tag('warning:unrelated(clipping or NASA range)')
+    start_outside = 1.0 > float(np.sum(b))      # pMuTT starts every species at 1 mol, upper bound = sum of atoms
+    if start_outside:
         ctx.tag('start:outside-bounds')
     if ref['forced_zero']:
         ctx.tag('feed:forced-zero')
@@ -439,11 +449,12 @@ def _judge(case, ctx, prob, ref, run, sig):
     ok &= ctx.true('T and P are echoed', tuple(run['TP']) == (float(case['T']), float(case['P'])), sig, case,
                    observed=None, expected=(case['T'], case['P']))
     # ---- atoms
-    ok &= ctx.close('atoms of every element equal the feed', moles @ A, b, sig, case, rtol=1e-8, atol=0.0, scale=b)
+    ok &= ctx.close('atoms of every element equal the feed', moles @ A, b, sig, case, rtol=TOL_ATOMS, atol=0.0,
+                    scale=b)
     # ---- optimality: Gibbs energy not above the certified minimum
     G_impl = R.gibbs(moles, g, Pbar)
     ok &= ctx.close('total Gibbs energy equals the certified minimum', G_impl, ref['G'], sig, case,
-                    rtol=1e-6, atol=1e-6, scale=abs(ref['G']))
+                    rtol=TOL_G, atol=0.0, scale=abs(ref['G']) + float(np.sum(ref['n'])))
     # ---- reaction affinities among non-trace species
     x = moles / tot
     S = [i for i in range(len(names)) if x[i] > TRACE]
@@ -461,11 +472,11 @@ def _judge(case, ctx, prob, ref, run, sig):
             ctx.tag('affinity:checked')
             ctx.evals(rx.shape[0])
             ok &= ctx.close('every reaction among non-trace species is at equilibrium (dG/RT + ln Q = 0)',
-                            aff, np.zeros_like(aff), sig, case, rtol=0.0, atol=1e-3)
+                            aff, np.zeros_like(aff), sig, case, rtol=0.0, atol=TOL_AFF)
     # ---- the unique minimiser itself (strict convexity on the free species): non-trace amounts
     Sr = [i for i in range(len(names)) if ref['n'][i] / ref['n'].sum() > TRACE]
     ok &= ctx.close('non-trace amounts equal the unique minimiser', moles[Sr], ref['n'][Sr], sig, case,
-                    rtol=1e-5, atol=0.0)
+                    rtol=TOL_AMOUNT, atol=0.0)
     # ---- closed form for two proportional species
     if len(names) == 2:
         cf = R.closed_form_two(A, b, g, Pbar)
@@ -474,12 +485,12 @@ def _judge(case, ctx, prob, ref, run, sig):
             ctx.tag('closed-form:' + kind)
             nontriv.append('closed')
             big = [i for i in range(2) if cf[i] / cf.sum() > TRACE]
-            ok &= ctx.close('two-species closed form', moles[big], cf[big], sig, case, rtol=1e-5, atol=0.0)
+            ok &= ctx.close('two-species closed form', moles[big], cf[big], sig, case, rtol=TOL_AMOUNT, atol=0.0)
     if ref['forced_zero']:
         nontriv.append('forced')
     if sig['rank'] == 'deficient':
         nontriv.append('rank')
-    if run['unrelated']:
+    if start_outside:
         nontriv.append('start')
     if sig['order'] == 'permuted':
         nontriv.append('perm')
@@ -548,7 +559,7 @@ def check_case(case, ctx):
             ctx.evals()
             what = ('composition does not depend on the order of the species' if order != ident else
                     'composition does not depend on earlier calls on the same object')
-            ctx.close(what, moles[big], base[big], sig, case, rtol=1e-6, atol=0.0)
+            ctx.close(what, moles[big], base[big], sig, case, rtol=TOL_AMOUNT, atol=0.0)
         else:
             ctx.tag('order-or-history:not-comparable(failure signalled)')
 
@@ -645,8 +656,8 @@ def run_shard(shard, ctx):
         n += 1
 
 
-LEVEL_TEXT = ('Bounded exhaustive enumeration of configurations of the real Equilibrium.get_net_comp (13 networks '
-              'of 2-6 species in the quick tier, 16 of 2-12 species plus the bundled 10-species thermdat in the '
+LEVEL_TEXT = ('Bounded exhaustive enumeration of configurations of the real Equilibrium.get_net_comp (14 networks '
+              'of 2-6 species in the quick tier, 17 of 2-12 species plus the bundled 10-species thermdat in the '
               'thorough tier; 7 Gibbs-energy spreads; every listed feed, feed scale, temperature, pressure, species '
               'ordering and re-use history of the stated blocks), each judged against an independently certified '
               'global minimiser (element-potential Newton method with a KKT certificate, closed forms for two-species '
